@@ -1,4 +1,5 @@
 import PyYetiVerif.Model.Uset
+import PyYetiVerif.Model.UsetUp
 import PyYetiVerif.Model.Locate
 /-! Line protocol for C18.  A request is `op args | section | section …`; sections hold
 space-separated integers (matrix rows are separated by `;`).  Replies: `ok …` with sections
@@ -10,6 +11,10 @@ separated by ` | `, or `value-error` / `index-error` / `key-error`, or `bad-op`.
   dofpv <strict> <spec> 1 <gridsonly> | id dof word … | id…    (spec: P = literal 'p')
   dofpv <strict> <spec> 2 | id dof word … | id arg …           -> ok pv… | id dof …
   makeuset 1 | id… | nas…   /  makeuset 2 | id arg … | nas…    -> ok id dof word …
+  makeusetx 1|2 | id… or id arg … | nas… | x y z …             -> ok id dof word x y z …  (nan = unset)
+  upa <seup> | seup sedn … | se : id dof word … ; … | se : dnid … ; … | se : order scale … ; … | se : upid … ; …
+                                                               -> ok pv…          (upasetpv)
+  upq <sedn> | (the same five sections)                        -> ok 0 1 …        (upqsetpv)
   dups <tol> | v…              -> ok 0 1 …
   flippv <n> | pv…  /  i2b <n> | pv…
   i2s <strict> | pv…           -> ok slice a b c   (None for an absent field) / ok pv …
@@ -40,6 +45,34 @@ def triples : List Nat → Option (List (Nat × Nat × Nat))
   | [] => some []
   | a :: b :: c :: r => (triples r).map ((a, b, c) :: ·)
   | _ => none
+
+def itriples : List Int → Option (List (Int × Int × Int))
+  | [] => some []
+  | a :: b :: c :: r => (itriples r).map ((a, b, c) :: ·)
+  | _ => none
+
+def ipairs : List Int → Option (List (Int × Int))
+  | [] => some []
+  | a :: b :: r => (ipairs r).map ((a, b) :: ·)
+  | _ => none
+
+/-- a dictionary section `se : v … ; se : v …` -/
+def dictOf {β} (s : String) (f : String → Option β) : Option (List (Nat × β)) :=
+  if (toks s).isEmpty then some []
+  else (s.splitOn ";").mapM fun e =>
+    match e.splitOn ":" with
+    | [k, v] => match (toks k), f v with
+        | [k'], some b => k'.toNat?.map (·, b)
+        | _, _ => none
+    | _ => none
+
+def nasOf (sl us dn mp up : String) : Option Nas := do
+  let selist ← (nats sl).bind pairs
+  let uset ← dictOf us (fun v => (nats v).bind triples)
+  let dnids ← dictOf dn nats
+  let maps ← dictOf mp (fun v => (ints v).bind ipairs)
+  let upids ← dictOf up ints
+  pure { selist, uset, dnids, maps, upids }
 
 def showL {α} [ToString α] (l : List α) : String := " ".intercalate (l.map toString)
 def showB (l : List Bool) : String := showL (l.map fun b => if b then 1 else 0)
@@ -101,6 +134,24 @@ def answer (line : String) : String :=
       match request (if kind = ["1"] then ["1", "1"] else kind) sec, nats ns with
       | some rq, some nas =>
           reply (makeUset rq nas) (fun l => showL (l.flatMap fun r => [r.1, r.2.1, r.2.2]))
+      | _, _ => "bad-op"
+  | "makeusetx" :: kind, [sec, ns, xs] =>
+      match request (if kind = ["1"] then ["1", "1"] else kind) sec, nats ns, (ints xs).bind itriples with
+      | some rq, some nas, some xyz =>
+          reply (makeUsetXyz rq nas xyz) (fun l => " ".intercalate (l.map fun (r, c) =>
+            s!"{r.1} {r.2.1} {r.2.2} " ++ match c with
+              | some (x, y, z) => s!"{x} {y} {z}"
+              | none => "nan nan nan"))
+      | _, _, _ => "bad-op"
+  | ["upa", se], [sl, us, dn, mp, up] =>
+      match se.toNat?, nasOf sl us dn mp up with
+      | some se, some nas => reply (upasetpv nas se) showL
+      | _, _ => "bad-op"
+  | ["upq", se], [sl, us, dn, mp, up] =>
+      match se.toNat?, nasOf sl us dn mp up with
+      | some se, some nas =>
+          let m := Generated.UsetMask.mask
+          reply (upqsetpv (m .a) (m .q) (m .p) nas (nas.selist.length + 2) se) showB
       | _, _ => "bad-op"
   | ["dups", tol], [v] =>
       match tol.toInt?, ints v with
